@@ -1,5 +1,5 @@
 (* The model after the proposed repair of the nil-header finding (reports/rtsp.md): Marshal allocates
-   the Header map when it is nil and the body is not empty.  Compiled, not referenced by Props_C04.v;
+   the Header map when it is nil and the body is not empty.  Was compiled beside the faithful model before the fix; now history (Model.marshal_go is this definition);
    to switch over after a "fix:" commit, replace [marshal_go] by [marshal_go_fixed] in Model.run (case
    kind 2), drop C04_rtsp_marshal_nil_header_refuted / ..._partial and state [marshal_total_fixed]. *)
 From GVL Require Import NList Wire.
